@@ -344,7 +344,15 @@ def real_case(cfg, resume=False):
                 s.run(n_total=c["n_total"], progress=False, save_every=1)
                 files = sorted([f for f in os.listdir(tmp) if f.startswith("r_") and "final" not in f], key=lambda f: int(f.split("_")[1].split(".")[0]))
                 pick = files[len(files) // 2] if files else None
-                if pick:
+                if pick and resume == "used":
+                    # the SAME object goes on: a few further iterations (so that the last one need not be a refit), then its
+                    # history is replaced by an earlier checkpoint of its own and it runs again
+                    for _ in range(1 + int(c["seed"]) % 3):
+                        s.sample()
+                    for pk in (files[max(0, len(files) // 3)], files[len(files) // 2]):
+                        s.run(n_total=int(1.5 * c["n_total"]), progress=False, resume_state_path=os.path.join(tmp, pk))
+                    out["used_resume"] = 1
+                elif pick:
                     s2, _, _, _ = runs.build(c)
                     s2.run(n_total=c["n_total"], progress=False, resume_state_path=os.path.join(tmp, pick))
             else:
@@ -421,6 +429,12 @@ def run():
                    cluster_every=[1, 2, 3, 5][i % 4], n_max_clusters=[None, 2, 3, 1][(i // 4) % 4], normalize=bool((i // 8) % 2),
                    mode="vec", seed=ck.subseed("real", i))
         rt.append(("tvf.checks.c14:real_case", dict(cfg=cfg, resume=(i % 6 == 5)), None))
+    for i in range(ck.pick(8, 60)):
+        cfg = dict(target="bimodal", tkw=dict(p=[0.7, 0.5][i % 2], sep=6.0), N=[48, 64][i % 2], n_total=[192, 256][i % 2],
+                   kernel=["tpcn", "rwm"][i % 2], resample=["mult", "syst"][(i // 2) % 2], clustering=True,
+                   cluster_every=[3, 2, 4, 5][i % 4], n_max_clusters=[None, 2][(i // 4) % 2], normalize=bool((i // 2) % 2),
+                   mode="vec", seed=ck.subseed("used", i))
+        rt.append(("tvf.checks.c14:real_case", dict(cfg=cfg, resume="used"), None))
     for i, st, val in farm.run(rt, timeout=900, progress="C14-runs"):
         kw = rt[i][1]
         if st == "timeout":
@@ -430,7 +444,7 @@ def run():
             ck.violation("real-case-crashed", f"{kw['cfg']}: {st} {str(val)[-400:]}", kw)
             continue
         ck.case(dict(real=kw["cfg"], resume=kw["resume"]), nontrivial=val["fits"] > 0)
-        ck.event("monitored real runs" + (" (with resume)" if kw["resume"] else ""))
+        ck.event("monitored real runs" + (" (same object re-loaded from its own checkpoints and continued)" if kw["resume"] == "used" else " (with resume)" if kw["resume"] else ""))
         ck.event("kernel entries (parallel_mcmc) checked", val["entries"])
         ck.event("potential assignments (selectable pool particles) checked", val.get("potential", 0))
         ck.event("active particles whose label was compared with their training label", val.get("label_compared", 0))
@@ -441,7 +455,7 @@ def run():
                 seen.add(key)
                 ck.violation(key, what, kw)
     ck.require_events("synthetic pool sequences through Trainer.run + Resampler.run", "kernel entries (parallel_mcmc) checked", "monitored real runs",
-                      "monitored real runs (with resume)")
+                      "monitored real runs (with resume)", "monitored real runs (same object re-loaded from its own checkpoints and continued)")
     return ck.finish(
         rule="synthetic weighted multimodal pools (equal / dying mode / tight negligible-weight mode / duplicated points / three modes) pushed "
              "through real Trainer.run + Resampler.run + kernel entry for 4-8 consecutive iterations with cluster_every {1,2,3,5}, caps {None,1,2,3}, "
